@@ -14,6 +14,8 @@ import subprocess
 import sys
 import time
 
+from . import srcdigest
+
 VERIF = os.path.dirname(os.path.dirname(os.path.abspath(__file__)))
 REPO = os.environ.get("VERIF_REPO", "/repo")
 LEAN = os.path.join(VERIF, "lean")
@@ -419,8 +421,10 @@ def trim_to_last_end(path):
 
 def source_changed():
     """-> description of how REPO's Go sources differ from the tree the committed evidence was made on, or None.
-    Differences: tracked *.go / go.mod files modified against HEAD, untracked non-test *.go files, or a HEAD other than the
-    one recorded in tools/baseline.json (written by tools/baseline.py after the acceptance run)."""
+    Differences: tracked *.go / go.mod files modified against HEAD, untracked non-test *.go files, or a HEAD whose Go sources
+    (content digest over every *.go / go.mod / go.sum blob, lib/srcdigest.py) are not the ones recorded in tools/baseline.json
+    (written by tools/baseline.py after the acceptance run). The commit id itself is NOT compared: a restore or snapshot that
+    re-commits the same sources has another id and is the same tree."""
     try:
         r = subprocess.run(["git", "-C", REPO, "status", "--porcelain", "--untracked-files=all"], capture_output=True, text=True)
         ch = [l[3:] for l in r.stdout.splitlines()
@@ -428,10 +432,13 @@ def source_changed():
         if ch:
             return "working tree differs from HEAD in " + ", ".join(ch[:6])
         with open(os.path.join(VERIF, "tools", "baseline.json")) as f:
-            base = json.load(f).get("repo_head")
+            rec = json.load(f)
         head = subprocess.run(["git", "-C", REPO, "rev-parse", "HEAD"], capture_output=True, text=True).stdout.strip()
-        if base and head and base != head:
-            return "HEAD %s is not the recorded baseline %s" % (head[:9], base[:9])
+        if rec.get("repo_head") and head == rec.get("repo_head"):
+            return None
+        base, cur = rec.get("go_sources_sha1"), srcdigest.digest(REPO)
+        if base and cur and base != cur:
+            return "Go sources of HEAD %s (digest %s) are not the recorded baseline (digest %s)" % (head[:9], cur[:9], base[:9])
     except (OSError, ValueError):
         pass
     return None
